@@ -5,7 +5,7 @@
   from local degree tests.
 * big networks: >= 10 species and >= 10 reactions, names / ids with multi-digit suffixes (string order != numeric order).
 * histories: ONE analyzer object, the underlying CRNHyperGraph is edited between the calls (reaction removed / added);
-  case["edits"] = [["del", id] | ["add", [id, rule, lhs, rhs]], ...], case["style"] = 0 (compute_crn_deficiency) or
+  case["edits"] = [["del", id] | ["add", [id, rule, lhs, rhs]] | ["rmsp", species], ...], case["style"] = 0 (compute_crn_deficiency) or
   1 (compute_summary + compute_linkage_deficiencies + run_deficiency_one_algorithm).  Step 0 = the initial network.
 """
 from . import c17_nets as G
@@ -117,6 +117,14 @@ def apply_edits(rxns, edits):
     for e in edits:
         if e[0] == "del":
             cur = [r for r in cur if r[0] != e[1]]
+        elif e[0] == "rmsp":                # CRNHyperGraph.remove_species: species dropped from every side, empty reactions removed
+            nxt = []
+            for eid, rule, l, r in cur:
+                l2 = [x for x in l if x[0] != e[1]]
+                r2 = [x for x in r if x[0] != e[1]]
+                if l2 or r2:
+                    nxt.append([eid, rule, l2, r2])
+            cur = nxt
         else:
             cur = cur + [list(e[1])]
         out.append([list(r) for r in cur])
@@ -147,6 +155,7 @@ def histories(rng, nrand=50):
         out.append(_hist(net(["A <> B", "B >> C", "C <> D"]), [["del", "r_3"], ["add", ["n_1", "r", P("C"), P("B")]],
                                                               ["add", ["n_2", "r", P("B"), P("C")]]], style, "history/bridge"))
         out.append(_hist(net(["A + B <> C", "C >> 2 A"]), [["del", "r_2"], ["del", "r_3"]], style, "history/A+B=C"))
+        out.append(_hist(net(["A + B <> C", "C >> 2 A", "B >> 0"]), [["rmsp", "B"], ["rmsp", "A"]], style, "history/remove-species"))
     pool = [(l, r) for l, r in G.alphabet_reactions()]
     for k in range(nrand):
         nr = rng.randint(2, 5)
@@ -155,6 +164,13 @@ def histories(rng, nrand=50):
         alive = [r[0] for r in rxns]
         edits = []
         for j in range(rng.randint(1, 3)):
+            cur = apply_edits(rxns, edits)[-1]
+            present = sorted({x for _, _, l, r in cur for x, _ in l + r})
+            if present and rng.random() < 0.2:
+                s_ = rng.choice(present)
+                edits.append(["rmsp", s_])
+                alive = [r[0] for r in apply_edits(rxns, edits)[-1]]
+                continue
             if len(alive) > 1 and rng.random() < 0.6:
                 x = rng.choice(alive)
                 alive.remove(x)
